@@ -276,21 +276,38 @@ Definition leg_ok (Ls : list Q) (n : nat) (s : kstate) (l : kleg) : option kstat
       else None
   end.
 
-Fixpoint run_ok (Ls : list Q) (n : nat) (s : kstate) (ls : list kleg) : bool :=
+(** states after each commit; [None] if some leg is rejected *)
+Fixpoint run_states_k (Ls : list Q) (n : nat) (s : kstate) (ls : list kleg) : option (list kstate) :=
   match ls with
-  | [] => true
-  | l :: rest => match leg_ok Ls n s l with Some s' => run_ok Ls (S n) s' rest | None => false end
+  | [] => Some []
+  | l :: rest =>
+      match leg_ok Ls n s l with
+      | Some s' => match run_states_k Ls (S n) s' rest with Some r => Some (s' :: r) | None => None end
+      | None => None
+      end
   end.
+
+Definition run_ok (Ls : list Q) (n : nat) (s : kstate) (ls : list kleg) : bool :=
+  match run_states_k Ls n s ls with Some _ => true | None => false end.
 
 Record kcase := { kc_L : list f64; kc_init : gstate; kc_legs : list kleg }.
 
+Fixpoint ids_nodup (l : list (list nat)) : bool :=
+  match l with
+  | [] => true
+  | i :: r => negb (existsb (id_eqb i) r) && ids_nodup r
+  end.
+
 Definition init_ok (Ls : list Q) (st : gstate) : bool :=
+  ids_nodup (map u_id st) &&
   forallb (fun u => in_box Ls u && Nat.eqb (length (u_pos u)) (length Ls) && negb (moving u)
                     && match u_ts u with None => true | _ => false end) st
   && forallb (fun L => Qle_bool (1 # (2 ^ 1000)%positive) L) Ls.
 
+Definition kinit (c : kcase) : kstate :=
+  {| s_units := kc_init c; s_now := 0; s_pending := []; s_started := false; s_speed2 := None |}.
+
 Definition check_kcase (c : kcase) : bool :=
   let Ls := map f2q (kc_L c) in
   all_finite (kc_L c) && init_ok Ls (kc_init c)
-  && run_ok Ls 0 {| s_units := kc_init c; s_now := 0; s_pending := []; s_started := false; s_speed2 := None |}
-            (kc_legs c).
+  && run_ok Ls 0 (kinit c) (kc_legs c).
